@@ -376,6 +376,78 @@ def sequence_cases(first: tuple, depth: int) -> list[tuple[str, str]]:
     return out
 
 
+def extreme_float_cases() -> list[tuple[str, str]]:
+    """numeric vectors whose components are ordinary doubles but whose products leave the range
+    of a double (sympy's floats have no such range): the identities hold for them as for symbols"""
+    from symplyphysics import (Vector, dot_vectors, cross_cartesian_vectors, vector_magnitude,
+        vector_unit)
+    from symplyphysics.core.vectors.arithmetics import project_vector
+    F = sp.Float
+    vs = {"huge": [F("3e200"), F("4e200"), F("0.0")], "tiny": [F("3e-200"), F("-4e-200"),
+        F("12e-200")], "mixed": [F("3e200"), F("2.0"), F("1e-200")], "huge2": [F("-1e180"),
+        F("2e190"), F("5e200")]}
+
+    def rel_ok(got: Any, want: Any) -> bool:
+        got, want = sp.sympify(got), sp.sympify(want)
+        if want == 0:
+            return got == 0
+        try:
+            return bool(abs(sp.N((got - want) / want, 30)) < sp.Float("1e-12"))
+        except TypeError:
+            return False
+
+    out = []
+    for (na, a), (nb, b) in itertools.product(vs.items(), repeat=2):
+        try:
+            out.extend(_extreme_pair(na, a, nb, b, rel_ok))
+        except (ZeroDivisionError, OverflowError, ValueError, TypeError) as ex:
+            out.append((f"extreme:raises:{na}:{nb}", f"arithmetic on {a}, {b} raised "
+                f"{type(ex).__name__}: {ex}"))
+    return out
+
+
+def _extreme_pair(na: str, a: list, nb: str, b: list, rel_ok: Any) -> list[tuple[str, str]]:
+    from symplyphysics import (Vector, dot_vectors, cross_cartesian_vectors, vector_magnitude,
+        vector_unit)
+    from symplyphysics.core.vectors.arithmetics import project_vector
+    out = []
+    if True:
+        A, B = Vector(a), Vector(b)
+        want = sum(x * y for x, y in zip(a, b))  # sympy Float arithmetic: unbounded exponent
+        got = dot_vectors(A, B)
+        out.append((f"extreme:dot:{na}:{nb}", "" if rel_ok(got, want) else
+            f"dot product of {a} and {b} is {got}, reference {want}"))
+        if na == nb:
+            m = vector_magnitude(A)
+            out.append((f"extreme:magnitude:{na}", "" if rel_ok(m**2, want) else
+                f"magnitude of {a} is {m}, reference sqrt({want})"))
+            u = vector_unit(A)
+            mu = sum(c**2 for c in u.components)
+            out.append((f"extreme:unit:{na}", "" if rel_ok(mu, 1) else
+                f"unit vector of {a} has squared magnitude {mu}"))
+        else:
+            c = cross_cartesian_vectors(A, B)
+            lhs = sum(x**2 for x in c.components)
+            rhs = dot_vectors(A, A) * dot_vectors(B, B) - dot_vectors(A, B)**2
+            ref = sum(x**2 for x in a) * sum(y**2 for y in b) - want**2
+            # Lagrange's identity, on the scale of its terms (the difference cancels)
+            scale = sum(x**2 for x in a) * sum(y**2 for y in b)
+            try:
+                ok = bool(abs(sp.N((lhs - rhs) / scale, 30)) < sp.Float("1e-10")) and bool(abs(sp.N(
+                    (rhs - ref) / scale, 30)) < sp.Float("1e-10"))
+            except TypeError:
+                ok = False
+            out.append((f"extreme:lagrange:{na}:{nb}", "" if ok else
+                f"Lagrange's identity fails for {a}, {b}: |a x b|^2 = {lhs}, |a|^2|b|^2 - (a.b)^2 = "
+                f"{rhs}"))
+            p_ = project_vector(A, B)
+            wantp = [want / sum(y**2 for y in b) * y for y in b]
+            okp = all(rel_ok(x, y) for x, y in zip(list(p_.components) + [0] * 3, wantp))
+            out.append((f"extreme:project:{na}:{nb}", "" if okp else
+                f"projection of {a} on {b} is {p_.components}"))
+    return out
+
+
 def _work(item: tuple) -> dict:
     kind, payload = item
     if kind == "sequence":
@@ -395,6 +467,8 @@ def _work(item: tuple) -> dict:
         cases = ternary_cases(*payload)
     elif kind == "quaternary":
         cases = quaternary_cases(payload)
+    elif kind == "extreme":
+        cases = extreme_float_cases()
     else:
         cases = refusal_cases()
     res: dict[str, Any] = {"n": len(cases), "keys": [k for k, _ in cases], "outcomes": {},
@@ -415,6 +489,7 @@ def main(run: Run) -> int:
     items += [("ternary", p) for p in itertools.product(range(4), repeat=3)]
     items += [("quaternary", p) for p in itertools.product(range(4), repeat=4)]
     items.append(("refusal", None))
+    items.append(("extreme", None))
     depth = 3 if run.thorough else 2
     items += [("sequence", ((o, sy), depth)) for o in SEQ_OPS for sy in SEQ_SYSTEMS]
     for r in pmap(_work, rotate(items, run.seed), chunksize=4):
